@@ -81,7 +81,11 @@ class ProgGen:
         self.keys.append((ty, fin, i))
         if rng.random() < self.p_factory:
             return {"a": "publishFactory", "ty": ty, "name": name, "fid": self.n_res}
-        return {"a": "publish", "ty": ty, "name": name, "v": self.n_res}
+        a = {"a": "publish", "ty": ty, "name": name, "v": self.n_res}
+        if rng.random() < 0.25:
+            self.n_td += 1
+            a["td"] = self.n_td         # add_resource(..., teardown_callback=)
+        return a
 
     def scripts(self) -> None:
         rng = self.rng
